@@ -268,6 +268,10 @@ def evaluate(unit, prop, res, modules=None, arith_prop='C20', extra_props_for_un
             elif e['props']:
                 # labelled for other properties only: not this property's obligation
                 continue
+            elif prop == arith_prop and e['kind'] == 'post':
+                # C20 is the union of the arithmetic / index / unwrap obligations: a failed functional
+                # postcondition (helper or unlabelled) does not bear on it
+                continue
             else:
                 unl.append(e)
         return viol, unl
